@@ -443,3 +443,24 @@ class MustWrite:
         return "%s: path %s reaches return without a writer call (%s)" % (
             fn.name, "->".join("bb%d" % b for b in path[:12]) + ("…" if len(path) > 12 else ""),
             ", ".join(lines[:10]))
+
+
+def pipeline_body(prog, name="resizer::Resizer::resize_typed",
+                  markers=("resample_nearest", "resample_convolution", "resample_super_sampling")):
+    """the function that holds the resize pipeline: `name` itself, or -- when that has become a
+    thin wrapper (options resolved, then one call) -- the crate-local function of the same file
+    it hands its views to, followed as long as no resampler call is seen (at most 3 levels)"""
+    f = prog.fn_by_name(name)
+    for _ in range(3):
+        if any(c.name.rsplit("::", 1)[-1] in markers for c in f.calls()):
+            return f
+        nxt = []
+        for c in f.calls():
+            for t in prog.call_targets(c):
+                if t.file == f.file and t.kind != "closure" and t.id != f.id and \
+                        any(cc.name.rsplit("::", 1)[-1] in markers for cc in t.calls()):
+                    nxt.append(t)
+        if len({t.id for t in nxt}) != 1:
+            return f
+        f = nxt[0]
+    return f
